@@ -57,6 +57,9 @@ def build_sim(tpl, seed, owner):
         return sim
     if tpl == "DT":
         sim = models.dt_sim(owner, tag=rnd.choice(("DTU", "DSN")), rnd=rnd, style="random")
+        if rnd.random() < 0.5:          # undefined (all-ones) lifetime counters on one of the inverters
+            for a in range(30195, 30201):
+                sim.regs[a] = 0xFFFF
         sim.regs[40328] = rnd.randrange(0, 100)
         sim.regs[40336] = rnd.randrange(0, 100)
         return sim
